@@ -22,6 +22,7 @@ THEOREMS = [
     "Canopen.C10.no_dup_on_resubscribe",
     "Canopen.C10.removed_node_silent",
     "Canopen.C10.frame_format",
+    "Canopen.C10.periodic_update_frame",
     "Canopen.C10.listener_filter",
     "Canopen.C10.services_match",
     "Canopen.C10.scanner",
@@ -38,6 +39,7 @@ FINGERPRINT = [
     "canopen.network:Network.add_node",
     "canopen.network:Network.create_node",
     "canopen.network:PeriodicMessageTask.__init__",
+    "canopen.network:PeriodicMessageTask.update",
     "canopen.network:MessageListener.on_message_received",
     "canopen.network:NodeScanner.on_message_received",
     "canopen.network:NodeScanner.reset",
@@ -324,6 +326,30 @@ def run_impl(op):
         if len(bus.periodic) != 1 or bus.periodic[0][0] is not task.msg or bus.periodic[0][1] != 0.5:
             return "odd-task"
         return show_msg(task.msg)
+    if a[0] == "pup":
+        # `pup id data0 remote data1,data2,… mod`: a periodic task whose payload is updated; the message the bus
+        # holds afterwards (mod=1: handed to modify_data; mod=0: handed to the last send_periodic)
+        mod = a[5] == "1"
+        seen = []
+
+        class UBus(FakeBus):
+            def send_periodic(self, msg, period, *aa, **kk):
+                seen.append(msg)
+
+                class Task:
+                    def stop(self):
+                        pass
+                if mod:
+                    Task.modify_data = lambda self, m: seen.append(m)
+                return Task()
+        net = canopen.Network(UBus())
+        try:
+            task = net.send_periodic(int(a[1]), unhx(a[2]), 0.5, a[3] == "1")
+            for d in a[4].split(","):
+                task.update(unhx(d))
+        except Exception:
+            return "err"
+        return show_msg(seen[-1])
     if a[0] == "scan":
         sc = nw.NodeScanner()
         for i in ([] if a[1] == "-" else a[1].split(",")):
@@ -609,6 +635,10 @@ def oracle(op, out):
         return oracle_history(op, out)
     if a[0] == "fx":
         return oracle_effects(op, out)
+    if a[0] == "pup":
+        # same rule as ptx, for the last payload given
+        last = a[4].split(",")[-1]
+        return oracle(f"ptx {a[1]} {last} {a[3]}", out)
     if a[0] in ("tx", "ptx"):
         cid, data, rem = int(a[1]), a[2], a[3]
         if a[0] == "tx" and a[4] == "0":
@@ -858,6 +888,13 @@ def gen_ops(tier, rng):
             yield f"ptx {cid} {rdata(rng)} {rem}"
     for cid in range(0, 0x800, 1 if thorough else 16):
         yield f"ptx {cid} {rdata(rng)} {rng.choice('01')}"
+    # a periodic message whose payload is updated keeps id, format and remote flag (payloads of one length)
+    for cid in [0, 1, 0x80, 0x181, 0x701, 0x7FF, 0x800, 0x1FFFFFFF] + [rng.randrange(0, 0x800) for _ in range(40)] \
+            + [rng.getrandbits(29) for _ in range(10)]:
+        n = rng.choice([1, 2, 8])
+        ups = ",".join(hx(bytes(rng.getrandbits(8) for _ in range(n))) for _ in range(rng.randint(1, 3)))
+        for mod in "01":
+            yield f"pup {cid} {hx(bytes(rng.getrandbits(8) for _ in range(n)))} 0 {ups} {mod}"
     for n in range(0, 9):
         yield f"tx 291 {hx(bytes(range(n)))} 0 1"
         yield f"ptx 2049 {hx(bytes(range(n)))} 0"
